@@ -1,6 +1,7 @@
 (* C02 — Stored data is returned bit-identical by every read path. *)
 From Coq Require Import List NArith ZArith Bool Arith.
-From PyFS Require Import Base.PyStr FS.Tree FS.Mode IO.CopyData IO.MakeStream IO.CopyDataProofs.
+From PyFS Require Import Base.PyStr Base.Outcome Base.Render FS.Tree FS.Mode FS.Ops FS.Ref FS.Wf IO.CopyData IO.MakeStream
+     IO.CopyDataProofs FS.DataRoundTrip.
 Import ListNotations.
 
 (* the chunked copy loop transfers every byte, in order, for every chunk size (None, negative,
@@ -37,3 +38,48 @@ Theorem C02_make_stream_table :
              && Bool.eqb (can_write (s_buffer s)) (m_writing m))) all_modes = true.
 Proof. exact make_stream_table. Qed.
 Print Assumptions C02_make_stream_table.
+
+(* ---- FS-level round trips on the MemoryFS model (tied to the real MemoryFS step by step by the C01/C02 runs) ---- *)
+Theorem C02_write_then_read : forall p d s s' v, wf s -> mem_run (OWritebytes p d) s = (s', Ok v) ->
+  mem_run (OReadbytes p) s' = (s', Ok (VBytes d)).
+Proof. exact write_then_read. Qed.
+Print Assumptions C02_write_then_read.
+
+Theorem C02_openwrite_then_read : forall p d s s' v, wf s -> mem_run (OOpenwrite p [119%N] d) s = (s', Ok v) ->
+  mem_run (OReadbytes p) s' = (s', Ok (VBytes d)).
+Proof. exact openwrite_then_read. Qed.
+Print Assumptions C02_openwrite_then_read.
+
+Theorem C02_append_then_read : forall p d old s s' v, wf s -> mem_run (OReadbytes p) s = (s, Ok (VBytes old)) ->
+  mem_run (OAppendbytes p d) s = (s', Ok v) -> mem_run (OReadbytes p) s' = (s', Ok (VBytes (old ++ d))).
+Proof. exact append_then_read. Qed.
+Print Assumptions C02_append_then_read.
+
+Theorem C02_append_new_then_read : forall p d s s' v, wf s -> mem_run (OExists p) s = (s, Ok (VBool false)) ->
+  mem_run (OAppendbytes p d) s = (s', Ok v) -> mem_run (OReadbytes p) s' = (s', Ok (VBytes d)).
+Proof. exact append_new_then_read. Qed.
+Print Assumptions C02_append_new_then_read.
+
+Theorem C02_copy_then_read : forall a b ow pt data s s' v, wf s -> mem_run (OReadbytes a) s = (s, Ok (VBytes data)) ->
+  mem_run (OCopy a b ow pt) s = (s', Ok v) ->
+  mem_run (OReadbytes b) s' = (s', Ok (VBytes data)) /\ mem_run (OReadbytes a) s' = (s', Ok (VBytes data)).
+Proof. exact copy_then_read. Qed.
+Print Assumptions C02_copy_then_read.
+
+Theorem C02_move_then_read : forall a b ow pt data s s' v, wf s -> mem_run (OReadbytes a) s = (s, Ok (VBytes data)) ->
+  mem_run (OMove a b ow pt) s = (s', Ok v) -> mem_run (OReadbytes b) s' = (s', Ok (VBytes data)).
+Proof. exact move_then_read. Qed.
+Print Assumptions C02_move_then_read.
+
+Theorem C02_read_paths_agree : forall p data s, wf s -> mem_run (OReadbytes p) s = (s, Ok (VBytes data)) ->
+  mem_run (OGetsize p) s = (s, Ok (VNat (length data))) /\
+  mem_run (OOpenread p [114%N]) s = (s, Ok (VBytes data)) /\ mem_run (OIsfile p) s = (s, Ok (VBool true)).
+Proof. exact read_paths_agree. Qed.
+Print Assumptions C02_read_paths_agree.
+
+(* writing one file does not change the bytes of a different file *)
+Theorem C02_write_frame : forall p q d data s s' v cp cq, wf s -> rpath p = inl cp -> rpath q = inl cq -> cp <> cq ->
+  mem_run (OReadbytes q) s = (s, Ok (VBytes data)) -> mem_run (OWritebytes p d) s = (s', Ok v) ->
+  mem_run (OReadbytes q) s' = (s', Ok (VBytes data)).
+Proof. exact write_frame. Qed.
+Print Assumptions C02_write_frame.
